@@ -36,11 +36,19 @@ func VerifC20Secrets() {
 			"envsec":  map[string]any{"environment": "SECRET_VAR"},
 			"filesec": map[string]any{"file": "/f", "x-note": "n"},
 			"extsec":  map[string]any{"external": true},
+			// every other attribute a secret may carry next to its environment source
+			"extenvsec": map[string]any{"external": true, "environment": "SECRET_VAR"},
+			"lblenvsec": map[string]any{"environment": "SECRET_VAR", "labels": map[string]any{"l": "1"}, "name": "custom", "x-note": "n"},
 		},
 		"configs": map[string]any{
 			"envcfg":  map[string]any{"environment": "CONFIG_VAR"},
 			"textcfg": map[string]any{"content": "plain"},
 		},
+	}
+	// the document is the main file, or arrives through an include
+	if vrtChoice("viaInclude", 2) == 1 {
+		vrtYamlFile(vrtRoot()+"/w/inc/compose.yaml", doc)
+		doc = map[string]any{"include": []any{"inc/compose.yaml"}, "services": map[string]any{"own": map[string]any{"image": "i"}}}
 	}
 	vrtMapOrder([]int{0, 3, 4}[vrtChoice("maporder", 3)]) // insertion, sorted ascending, sorted descending
 	p, err := tcLoadProject(env, nil, doc)
